@@ -1021,7 +1021,9 @@ bool port_is_enabled(const Port* port, char* loc, size_t loc_size,
                 //    /loc/abc/../enable
                 //            abc/enable
                 //
-                const char* old_end = loc_copy + loclen + 3;
+                // (only with relative_to_parent there is a "../" to skip)
+                const char* old_end = loc_copy + loclen
+                                      + (relative_to_parent ? 3 : 0);
                 walker(ask_port, collapsed_loc, old_end, base, data, runtime);
             }
 
